@@ -275,3 +275,30 @@ func VerifRingSnapshot(s *Session) VerifRing {
 	}
 	return r
 }
+
+// VerifWriteRec is one call of the connection's contextWriter as the request path saw it.
+type VerifWriteRec struct {
+	Data []byte
+	N    int
+	Err  error
+	Ctx  bool // Err is the context's error
+}
+
+type verifRecWriter struct {
+	inner contextWriter
+	log   *[]VerifWriteRec
+}
+
+func (w *verifRecWriter) writeContext(ctx context.Context, p []byte) (int, error) {
+	n, err := w.inner.writeContext(ctx, p)
+	*w.log = append(*w.log, VerifWriteRec{Data: append([]byte(nil), p...), N: n, Err: err, Ctx: err != nil && (err == context.Canceled || err == context.DeadlineExceeded)})
+	return n, err
+}
+
+// RecordWrites wraps the connection's writer (direct or coalescing) so that what each
+// request was told about its write can be compared with the bytes on the wire.
+func (l *VerifLive) RecordWrites() *[]VerifWriteRec {
+	log := &[]VerifWriteRec{}
+	l.C.w = &verifRecWriter{inner: l.C.w, log: log}
+	return log
+}
